@@ -5,6 +5,6 @@ def comp : Component Unit where
   init := ()
   step _ _ := ((), [], [])
   stepO := some RealAdapter.stepO
-  prop := RealAdapter.sameProp ["same-process", "fresh-process"]
+  prop := RealAdapter.sameProp ["same-process", "fresh-process", "overlapping-run"]
 
 def main (args : List String) : IO Unit := Driver.main comp args
